@@ -201,6 +201,9 @@ plan("C10", Q, [
     R("full-dbg", "cleaner", 2, 3, depth=7, action_menu=ACT_ALL, c=3, max_actions=3),
     R("nofin-rel", "cleaner", 2, 3, depth=8),
     R("full-dbg", "cleanermany", 1, 1, c=5, max_actions=6),
+    # automatic collections on: register() allocates the action map lazily with Cc::new, whose collection may run
+    # finalizers that use the same Cleaner (registration nested in a registration)
+    R("full-dbg", "autoclean", 2, 3, depth=10, c=3, max_actions=2),
 ])
 plan("C10", T, [
     R("full-dbg", "cleanermany", 1, 1, c=6, max_actions=7, max_seconds=MID),
@@ -210,6 +213,8 @@ plan("C10", T, [
     R("full-dbg", "cleaner", 2, 3, depth=9, action_menu=ACT_ALL),
     R("nofin-rel", "cleaner", 2, 3, depth=11, max_seconds=MID),
     R("full-dbg", "cleaner", 1, 2, action_menu="0,5", c=3, max_actions=3, max_seconds=MID),
+    R("full-rel", "autoclean", 2, 3, depth=13, c=3, max_actions=2, max_seconds=MID),
+    R("full-rel", "autoclean", 3, 3, depth=11, c=3, max_actions=2, max_seconds=MID),
 ])
 
 # ---- C11 introspection counters ----------------------------------------------------------------------------------------
